@@ -125,6 +125,22 @@ func (annotStream) Generate(rng *rand.Rand, tier string, emit func(Case)) {
 			emit(Case{"op": "parse", "entries": mapToProto(map[string]string{key: val, "cdi.k8s.io/plugin_dev": "v.com/k=n"})})
 		}
 	}
+	// the key of an allocation whose device id contains '/' is already in use (under the name the helper gives it,
+	// with '/' replaced): the request must fail and leave the map alone; and requests naming a device more than
+	// once, under one key and under two keys, parse back with every occurrence
+	for _, dev := range []string{"card/0", "a/b/c", "/x", "x/", "gpu0"} {
+		for _, val := range []string{"old.com/k=n", ""} {
+			if k, err := cdi.AnnotationKey("vendor.class", dev); err == nil {
+				emit(Case{"op": "update", "ann": mapToProto(map[string]string{k: val, "other": "1"}), "plugin": hx("vendor.class"), "dev": hx(dev), "devices": hxList([]string{"new.com/k=n"})})
+			}
+		}
+	}
+	for _, devs := range [][]string{{"v.com/k=gpu0", "v.com/k=gpu1", "v.com/k=gpu0"}, {"v.com/k=a", "v.com/k=a"}, {"v.com/k=a", "w.org/c=a", "v.com/k=a", "v.com/k=b"}} {
+		emit(Case{"op": "value", "devices": hxList(devs)})
+		emit(Case{"op": "update", "ann": mapToProto(map[string]string{}), "plugin": hx("p"), "dev": hx("d"), "devices": hxList(devs)})
+		emit(Case{"op": "parse", "entries": mapToProto(map[string]string{"cdi.k8s.io/p_d": strings.Join(devs, ",")})})
+		emit(Case{"op": "parse", "entries": mapToProto(map[string]string{"cdi.k8s.io/p_d": strings.Join(devs, ","), "cdi.k8s.io/q_e": strings.Join(devs[:2], ",")})})
+	}
 	for i := 0; i < n; i++ {
 		plugin := genKeyPart(rng, 1+rng.Intn(8))
 		dev := genKeyPart(rng, 1+rng.Intn(8))
